@@ -32,6 +32,7 @@ from .types import (
     Token,
 )
 from .utils import (
+    exc_for_missing_operator,
     exc_for_token,
     insert_tokens_after,
     merge_operator_tokens,
@@ -134,6 +135,29 @@ class DefaultFormulaParser(FormulaParser):
         token_minus = Token("-", kind=Token.Kind.OPERATOR)
 
         tokens = sanitize_tokens(tokenize(formula))
+
+        # A literal "0" directly following an operand (e.g. "a 0") must not be
+        # allowed to pick up the "-" introduced by the substitution below.
+        def check_zero_placement(tokens: Iterable[Token]) -> Iterable[Token]:
+            previous = None
+            for token in tokens:
+                if (
+                    token.kind is Token.Kind.VALUE
+                    and token.token == "0"
+                    and previous is not None
+                    and (
+                        previous.kind is not Token.Kind.OPERATOR
+                        or previous.token == "."  # noqa: S105
+                    )
+                    and not (
+                        previous.kind is Token.Kind.CONTEXT and previous.token in "(["
+                    )
+                ):
+                    raise exc_for_missing_operator(previous, token)
+                previous = token
+                yield token
+
+        tokens = check_zero_placement(tokens)
 
         # Substitute "0" with "-1"
         tokens = replace_tokens(
